@@ -2341,7 +2341,120 @@ def c02_results(inp):
     return {"reproduced": False, "detail": "merge_results groups by position whatever the algorithms are called; means, std/mean and merged shapes per group agree on 30 layouts"}
 
 
-DRIVERS = {"c16_handover": c16_handover, "c02_results": c02_results, "c08_meta": c08_meta, "c17_factor": c17_factor, "c17_fd": c17_fd, "c03_exact": c03_exact, "c05_exact": c05_exact, "c01_exact": c01_exact, "c01_modal": c01_modal, "c19_geo": c19_geo, "c15_gating": c15_gating, "c15_poser": c15_poser, "c11_plscf_findmin": c11_plscf_findmin, "c11_mpe": c11_mpe, "c06_fdd": c06_fdd, "c20_plots": c20_plots, "c18_indicators": c18_indicators, "c13_sdest": c13_sdest, "c04_preger": c04_preger, "c03_split": c03_split, "c14_sequences": c14_sequences, "c16_dialog": c16_dialog, "c02_merge": c02_merge, "c09_run": c09_run, "c10_run": c10_run, "c10_fn": c10_fn}
+
+# ----------------------------------------------------------------------------------
+# data-flow fallbacks: what the algorithm classes hand to the estimators / extraction routines (spies on the real calls)
+# ----------------------------------------------------------------------------------
+
+def flow_spectral(inp):
+    """FDD / pLSCF (.run) -> SD_est and FDD_MS / EFDD_MS / pLSCF_MS (.run) -> SD_PreGER: data, dt / fs, nxseg, method, pov"""
+    import pyoma2.algorithms.fdd as afdd
+    import pyoma2.algorithms.plscf as aplscf
+    from pyoma2.setup import MultiSetup_PreGER, SingleSetup
+    rng = np.random.RandomState(int(inp.get("seed", 13)))
+    y = rng.randn(600, 3)
+    for trial in range(12):
+        nxseg = int(rng.choice([64, 128, 100]))
+        pov = float(rng.choice([0.25, 0.5, 0.75]))
+        meth = str(rng.choice(["per", "cor"]))
+        fs = float(rng.choice([10.0, 50.0]))
+        for mod, clsname, multi in ((afdd, "FDD", False), (aplscf, "pLSCF", False), (afdd, "FDD_MS", True), (afdd, "EFDD_MS", True), (aplscf, "pLSCF_MS", True)):
+            target = "SD_PreGER" if multi else "SD_est"
+            seen = {}
+            real = getattr(mod.fdd, target)
+
+            def spy(*a, **k):
+                seen["a"], seen["k"] = a, k
+                raise RuntimeError("stop")
+            setattr(mod.fdd, target, spy)
+            try:
+                kw = dict(name="a", nxseg=nxseg, method_SD=meth, pov=pov)
+                if "pLSCF" in clsname:
+                    kw["ordmax"] = 4
+                alg = getattr(mod, clsname)(**kw)
+                if multi:
+                    st = MultiSetup_PreGER(fs=fs, ref_ind=[[0], [0]], datasets=[y[:300].copy(), y[300:].copy()])
+                else:
+                    st = SingleSetup(y.copy(), fs)
+                st.add_algorithms(alg)
+                try:
+                    st.run_by_name("a")
+                except RuntimeError:
+                    pass
+            finally:
+                setattr(mod.fdd, target, real)
+            if not seen:
+                return {"reproduced": True, "detail": f"{clsname}.run never called {target}"}
+            import inspect
+            ba = inspect.signature(real).bind(*seen["a"], **seen["k"])
+            ba.apply_defaults()
+            g = ba.arguments
+            ctx = f"{clsname}.run(nxseg={nxseg}, method_SD={meth}, pov={pov}, fs={fs})"
+            if int(g["nxseg"]) != nxseg or g["method"] != meth or abs(float(g["pov"]) - pov) > 1e-12:
+                return {"reproduced": True, "detail": f"{ctx}: {target} received nxseg={g['nxseg']}, method={g['method']}, pov={g['pov']}"}
+            if multi:
+                if abs(float(g["fs"]) - fs) > 1e-12 or g["Y"] is not alg.data:
+                    return {"reproduced": True, "detail": f"{ctx}: {target} received fs={g['fs']} / other data than the algorithm's"}
+            else:
+                if abs(float(g["dt"]) - 1 / fs) > 1e-12 or not np.array_equal(g["Yall"], y.T) or not np.array_equal(g["Yref"], y.T):
+                    return {"reproduced": True, "detail": f"{ctx}: {target} received dt={g['dt']} or data other than data.T for both arguments"}
+    return {"reproduced": False, "detail": "run() of FDD, pLSCF, FDD_MS, EFDD_MS, pLSCF_MS hand data, dt / fs, nxseg, method and pov to the estimator unchanged"}
+
+
+def flow_mpe(inp):
+    """FDD.mpe -> FDD_mpe, SSIdat.mpe -> SSI_mpe, pLSCF.mpe -> pLSCF_mpe: stored tables in, results stored under their own names"""
+    import pyoma2.algorithms.fdd as afdd
+    import pyoma2.algorithms.plscf as aplscf
+    import pyoma2.algorithms.ssi as assi
+    from pyoma2.algorithms.data.result import FDDResult, pLSCFResult, SSIResult
+
+    def tagged(n):
+        return [np.full((2, 2), float(i + 1)) for i in range(n)]
+    for mod, kern, clsname, fn_name, res_cls, ins, outs, call in (
+            (afdd, "fdd", "FDD", "FDD_mpe", FDDResult, {"Sval": "S_val", "Svec": "S_vec", "freq": "freq"}, ("Fn", "Phi"), dict(sel_freq=[1.0, 2.0], DF=0.3)),
+            (assi, "ssi", "SSIcov", "SSI_mpe", SSIResult, {"Fn_pol": "Fn_poles", "Xi_pol": "Xi_poles", "Phi_pol": "Phi_poles", "Lab": "Lab", "Fn_cov": "Fn_poles_cov",
+                                                           "Xi_cov": "Xi_poles_cov", "Phi_cov": "Phi_poles_cov"},
+             ("Fn", "Xi", "Phi", "order_out", "Fn_cov", "Xi_cov", "Phi_cov"), dict(sel_freq=[1.0, 2.0], order=3, rtol=0.07)),
+            (aplscf, "plscf", "pLSCF", "pLSCF_mpe", pLSCFResult, {"Fn_pol": "Fn_poles", "Xi_pol": "Xi_poles", "Phi_pol": "Phi_poles", "Lab": "Lab"},
+             ("Fn", "Xi", "Phi", "order_out"), dict(sel_freq=[1.0, 2.0], order=3, rtol=0.07))):
+        k_mod = getattr(mod, kern)
+        real = getattr(k_mod, fn_name)
+        seen = {}
+        ret = tuple(np.full(2, 100.0 + i) for i in range(len(outs)))
+
+        def spy(*a, **k):
+            seen["a"], seen["k"] = a, k
+            return ret
+        setattr(k_mod, fn_name, spy)
+        try:
+            alg = getattr(mod, clsname)(name="a", br=3, ordmax=6) if clsname == "SSIcov" else (getattr(mod, clsname)(name="a", ordmax=6) if clsname == "pLSCF" else getattr(mod, clsname)(name="a", nxseg=64))
+            fields = sorted(set(ins.values()))
+            vals = dict(zip(fields, tagged(len(fields))))
+            alg.result = res_cls(**{f: v for f, v in vals.items() if f in res_cls.model_fields})
+            for f, v in vals.items():
+                setattr(alg.result, f, v)
+            alg.mpe(**call)
+        except Exception as e:      # noqa: BLE001
+            return {"reproduced": True, "detail": f"{clsname}.mpe raised {type(e).__name__}: {e}"}
+        finally:
+            setattr(k_mod, fn_name, real)
+        import inspect
+        ba = inspect.signature(real).bind(*seen["a"], **seen["k"])
+        ba.apply_defaults()
+        g = ba.arguments
+        for arg, fld in ins.items():
+            if g[arg] is not vals[fld]:
+                return {"reproduced": True, "detail": f"{clsname}.mpe: {fn_name} received something else than result.{fld} as {arg}"}
+        freq_arg = "sel_freq" if "sel_freq" in g else "freq_ref"
+        if list(g[freq_arg]) != call["sel_freq"] or any(abs(float(g[k_]) - v) > 1e-12 for k_, v in call.items() if k_ in ("DF", "rtol")) or ("order" in call and g["order"] != call["order"]):
+            return {"reproduced": True, "detail": f"{clsname}.mpe: the caller's frequencies / order / tolerance did not reach {fn_name} unchanged"}
+        for i, o in enumerate(outs):
+            if getattr(alg.result, o) is not ret[i]:
+                return {"reproduced": True, "detail": f"{clsname}.mpe: result.{o} is not the value {fn_name} returned at position {i}"}
+    return {"reproduced": False, "detail": "mpe of FDD, SSIcov, pLSCF hand the stored tables and the caller's arguments to the extraction routine and store every returned value under its own name"}
+
+
+DRIVERS = {"flow_spectral": flow_spectral, "flow_mpe": flow_mpe, "c16_handover": c16_handover, "c02_results": c02_results, "c08_meta": c08_meta, "c17_factor": c17_factor, "c17_fd": c17_fd, "c03_exact": c03_exact, "c05_exact": c05_exact, "c01_exact": c01_exact, "c01_modal": c01_modal, "c19_geo": c19_geo, "c15_gating": c15_gating, "c15_poser": c15_poser, "c11_plscf_findmin": c11_plscf_findmin, "c11_mpe": c11_mpe, "c06_fdd": c06_fdd, "c20_plots": c20_plots, "c18_indicators": c18_indicators, "c13_sdest": c13_sdest, "c04_preger": c04_preger, "c03_split": c03_split, "c14_sequences": c14_sequences, "c16_dialog": c16_dialog, "c02_merge": c02_merge, "c09_run": c09_run, "c10_run": c10_run, "c10_fn": c10_fn}
 
 
 def main():
